@@ -182,6 +182,39 @@ def _nested(Config, defaults, fails):
             fails.append(f'nested (inner raises: {inner_raises}): leaving the outer block does not restore the initial configuration')
 
 
+def _prepared_up_front(Config, fails):
+    """Config objects built first (under the defaults) and entered later, nested: leaving the inner block restores the
+    configuration active when it was ENTERED (the outer one), on normal and exceptional exit"""
+    for inner_raises in (False, True):
+        v1, v2 = _values(np.random.default_rng(3)), _values(np.random.default_rng(4))
+        before = Config.instance()
+        a = Config(solver=v1['solver'], solver_throw=True)
+        b = Config(solver_options=v2['solver_options'])
+        try:
+            with a as outer:
+                try:
+                    with b:
+                        if inner_raises:
+                            raise Boom()
+                except Boom:
+                    pass
+                if Config.instance() is not outer:
+                    fails.append(f'objects prepared up front (inner raises: {inner_raises}): leaving the inner block does not '
+                                 f'restore the configuration that was active when it was entered')
+        finally:
+            pass
+        if Config.instance() is not before:
+            fails.append(f'objects prepared up front (inner raises: {inner_raises}): the initial configuration is not restored')
+        # the same object entered twice in a row
+        with a:
+            pass
+        with a as again:
+            if Config.instance() is not again:
+                fails.append('a Config object entered a second time does not become current')
+        if Config.instance() is not before:
+            fails.append('a Config object entered twice: the initial configuration is not restored')
+
+
 def history(w, seed, spec):
     from furax import Config
     from furax._base.config import ConfigState
@@ -203,6 +236,7 @@ def history(w, seed, spec):
             _guard(fails, 'witness (inner)', lambda: r.block(defaults, 1, forced=[f for f in w['named_inner'] if f in FIELDS]))
         # depth-2 nesting, normal and raising exits, deterministic
         _guard(fails, 'nested', lambda: _nested(Config, defaults, fails))
+        _guard(fails, 'prepared up front', lambda: _prepared_up_front(Config, fails))
         try:
             Config(no_such_setting=1)
             fails.append('Config(no_such_setting=...) accepted')
